@@ -125,6 +125,11 @@ def stimuli(tier, seed, ctx):
         if text is None:
             continue
         cases.append({'k': 'conv', 'x': x, 'iso': iso, 'text': text, 'via': rnd.choice(['convert', 'period'])})
+        if iso and rnd.random() < 0.15:
+            # lower case is allowed in the traditional format only
+            low = rnd.choice([text.lower(), text.replace('P', 'p', 1), text[0] + text[1:].lower()])
+            if low != text:
+                cases.append({'k': 'bad', 'text': low, 'via': rnd.choice(['convert', 'period'])})
     for sec in _grid_ints(rnd, n // 2):
         cases.append({'k': 'tstr', 'sec': sec, 'us': 0, 'isfloat': False, 'prec': 3, 'sep': rnd.choice(['', ' '])})
         cases.append({'k': 'approx', 'sec': sec, 'us': 0, 'isfloat': False, 'sep': rnd.choice(['', ' '])})
